@@ -127,13 +127,22 @@ def parse_dt(v):
     return tuple(int(x) for x in m.groups()) if m else None
 
 
-def trim_stream(evs, keep_ws):
-    """leading/trailing white space trimmed and white-space-only text dropped unless preserved"""
+def trim_stream(evs, keep_ws, binary=()):
+    """leading/trailing white space trimmed and white-space-only text dropped unless preserved;
+    the content of binary-flagged elements is data, never white space"""
     if keep_ws:
         return [e for e in evs if not (e[0] == 'C' and e[1] == b'')]
-    out = []
+    out, stack = [], []
     for e in evs:
+        if e[0] == 'S':
+            stack.append(local(e[1]))
+        elif e[0] == 'E' and stack:
+            stack.pop()
         if e[0] == 'C':
+            if stack and stack[-1] in binary:
+                if e[1]:
+                    out.append(e)
+                continue
             t = e[1].strip(WS)
             if t:
                 out.append(('C', t) + tuple(e[2:]))
@@ -254,7 +263,7 @@ def compare(norm, src, dst, keep_ws):
 
 def compare_at(norm, src, dst, keep_ws):
     """None when equal, else (description of the first difference, local name of the element it lies in)."""
-    a, b = trim_stream(src, keep_ws), trim_stream(dst, keep_ws)
+    a, b = trim_stream(src, keep_ws, norm.binary), trim_stream(dst, keep_ws, norm.binary)
     stack = []
     i = j = 0
     while i < len(a) and j < len(b):
